@@ -1,0 +1,16 @@
+//go:build verif
+// +build verif
+
+package reactive
+
+// VerifHook, when set, is called at the critical sections of the dependency
+// graph and of the rerunner (build tag verif): kind names the event, a and b
+// are the nodes / rerunner involved. Node events are reported while the node's
+// lock is held.
+var VerifHook func(kind string, a, b interface{})
+
+func verifEv(kind string, a, b interface{}) {
+	if h := VerifHook; h != nil {
+		h(kind, a, b)
+	}
+}
